@@ -26,6 +26,10 @@ RULE += (" Widened (~35% of the ops): the shared Resolved is made with ResolveOp
          "no $dynamicRef; the goroutines start right after that Resolve, each with a burst of 4..16 back-to-back Validate passes over "
          "all instances (harness argument burst); before that, 8..32 times per op, a FRESH Resolved made the same way is hit by the 8 "
          "goroutines at once (harness argument freshRounds).")
+RULE += (" Widened (~10% of the ops): 1..3 properties WITHOUT a default of their own whose defaults sit 2..4 or 10..24 levels of `properties` "
+         "below them (1..3 default-free siblings per level), instances beginning with empty objects and objects holding some of the parents; in "
+         "16..32 fresh rounds per op the goroutines' FIRST calls on the fresh Resolved are ApplyDefaults on their own copies of those instances "
+         "(harness argument applyFirst), results compared with the sequential ApplyDefaults.")
 TRUSTED = ["Go race detector (sampling, not proof)"]
 PREFILTER = vjudge.prefilter
 
@@ -43,7 +47,53 @@ def _with_infer(rng, ops):
 
 
 def gen(rng, tier, n):
-    return _with_infer(rng, _with_validate_defaults(rng, _gen(rng, tier, n)))
+    return _with_infer(rng, _with_nested_defaults(rng, _with_validate_defaults(rng, _gen(rng, tier, n))))
+
+
+def _deep_defaults(rng, levels, width, dv):
+    """A subschema WITHOUT a default of its own whose only default(s) sit `levels` levels of `properties` further down; every level
+    also has `width` sibling properties without any default below them (some of them objects with properties of their own)."""
+    s = Obj([("default", dv)]) if rng.random() < 0.7 else Obj([("type", ["number", "string", "array", "object", "boolean", "null"]), ("default", dv)])
+    for lv in range(levels):
+        sibs = []
+        for w in range(width):
+            r = rng.random()
+            sibs.append(("s%d" % w, Obj([("type", "string")]) if r < 0.5 else Obj([("minimum", Num("0"))]) if r < 0.7 else
+                         Obj([("properties", Obj([("t", Obj([("type", "number")])), ("u", Obj([("properties", Obj([("v", True)]))]))]))])))
+        kvs = sibs + [("n", s)]
+        rng.shuffle(kvs)
+        s = Obj([("properties", Obj(kvs))])
+        if rng.random() < 0.2:
+            s.set("type", "object")
+    return s
+
+
+def _with_nested_defaults(rng, ops):
+    """~10% of the operations: the document gets 1..3 properties that have NO default of their own but defaults two or more levels
+    (2..4, one of them mostly 10..24) of `properties` below them, next to siblings without defaults; the instances begin with EMPTY objects (and objects in
+    which some of the parents are present), for which ApplyDefaults creates the absent parents exactly when a nested default exists; in
+    16..32 fresh rounds per op every goroutine's FIRST calls on the fresh Resolved are ApplyDefaults on its own copies of those instances
+    (harness argument applyFirst), each result compared with the sequential one."""
+    for o in ops:
+        if rng.random() >= 0.1:
+            continue
+        doc = o["args"]["schema"]
+        props = doc.get("properties") if isinstance(doc.get("properties"), Obj) else Obj()
+        names = rng.sample(["p", "q", "r"], rng.randint(1, 3))
+        for i, nm in enumerate(names):
+            # one of them deep (the documents stay below ~5 kB), the others two to four levels
+            levels = rng.randint(2, 4) if i > 0 or rng.random() < 0.25 else rng.randint(10, 24)
+            props.set(nm, _deep_defaults(rng, levels, rng.randint(0, 2) if levels < 10 else rng.randint(1, 3),
+                                         rng.choice([Num("1"), "x1", [Num("1"), "a"], Obj([("k", None)]), None, True])))
+        if rng.random() < 0.3:
+            props.set("w", Obj([("properties", Obj([("n", Obj([("properties", Obj([("n", Obj([("type", "string")]))]))]))]))]))   # no default below: never created
+        doc.set("properties", props)
+        first = [Obj(), Obj([("a", "x1")]), Obj([(names[0], Obj())]), Obj([(names[-1], Obj([("n", Obj([("s0", "v")]))])), ("zz", Obj())])]
+        o["args"]["insts"] = first + o["args"]["insts"]
+        o["args"]["applyFirst"] = rng.choice([[0], [0, 1], [0, 1, 2, 3], [0, 2], [1, 0, 3]])
+        o["args"]["freshRounds"] = rng.choice([16, 24, 32])
+        o["meta"]["nested_defaults"] = True
+    return ops
 
 
 def _strip(j, keys):
